@@ -236,6 +236,10 @@ def gen_exprs(tier, rng):
         level1.append(p.Call(p.Lookup(p.Variable("math"), "copysign"), (2, u)))
         level1.append(p.Call(p.Lookup(p.Variable("math"), "gamma"), (u,)))
         level1.append(p.Call(p.Variable("f"), (u,)))
+    # table functions of constants (integer, float, Fraction-free), as factors, summands and exponents
+    for f in (pf.sin, pf.cos, pf.tan, pf.log, pf.exp, pf.sinh, pf.cosh, pf.tanh, pf.expm1):
+        for cst in (2, 1.5):      # small arguments: exp(7) as an exponent overflows double precision, which says nothing about the derivative
+            level1 += [p.Product((f(cst), x)), p.Sum((f(cst), p.Product((x, x)))), p.Power(x, f(cst)), f(cst), p.Product((x, f(p.Product((cst, y)))))]
     level1 += [p.Sum((x, y, a0)), p.Product((x, y, a0)), p.Product((x, x, x, y)), p.Sum(()), p.Product(()), p.Sum((x,)), p.Product((y,)),
                p.Sum((x, 2, y, a1, x)), p.Product((2, x, y, a1, x))]
     out = list(level1)
